@@ -102,7 +102,7 @@ func partsExistWhenEmitted(ti *mon.TraceIndex, rec string) []mon.Problem {
 func c19(args []string) {
 	c := chk.New("C19", "exploration", args)
 	c.Build(false)
-	c.Rule("every bundled component is placed between sources and recorders / consuming tasks and compared with a reference function: FileCombinator and ParamCombinator with 1-4 ports and stream lengths 0..B+1 from independent upstreams (B in {1,3}) and 0..B from a shared upstream - the multiset of aligned tuples (i-th item of every out-port) must equal the Cartesian product, each once; IPSelectorSync with every predicate outcome pattern over up to 6 aligned tuples; FileSplitter over files of 0..12 lines (with and without trailing newline) x 1..5 lines per split - parts concatenate back to the input, no part longer than the limit; Concatenator (single upstream: exact arrival order; fan-in: arrival order as recorded; GroupByTag) - output == every input's content plus newline once in arrival order; FileSource / ParamSource / FileToParamsReader (incl. last line without newline, empty lines) / CommandToParams - emitted == given / read, in order; FileGlobber - emitted == an independent matcher over a generated directory tree, per pattern in lexical order; the recorders stat every item on reception: what a file-emitting component hands downstream must exist at that moment (FileSplitter parts included). distinct_nontrivial = distinct (component, shape) cases whose comparison was made on >= 1 emitted item or an empty expectation")
+	c.Rule("every bundled component is placed between sources and recorders / consuming tasks and compared with a reference function: FileCombinator and ParamCombinator with 1-4 ports and stream lengths 0..B+1 from independent upstreams (B in {1,3}) and 0..B from a shared upstream - the multiset of aligned tuples (i-th item of every out-port) must equal the Cartesian product, each once; IPSelectorSync with every predicate outcome pattern over up to 6 aligned tuples; FileSplitter over files of 0..12 lines (with and without trailing newline) x 1..5 lines per split - parts concatenate back to the input, no part longer than the limit; Concatenator (single upstream: exact arrival order; fan-in: arrival order as recorded; GroupByTag) - output == every input's content plus newline once in arrival order; FileSource / ParamSource / FileToParamsReader (incl. last line without newline, empty lines) / CommandToParams - emitted == given / read, in order; FileGlobber - emitted == an independent matcher over a generated directory tree, per pattern in lexical order; the recorders stat every item on reception: what a file-emitting component hands downstream must exist at that moment (FileSplitter parts included); Concatenator with GroupByTag over a stream mixing tagged and untagged files; FileSplitter history: one file split in a first run, then that file plus unsplit ones in a second run. distinct_nontrivial = distinct (component, shape) cases whose comparison was made on >= 1 emitted item or an empty expectation")
 	c.Assume("unequal closing of IPSelectorSync inputs is a documented failure and is not generated", "a trailing empty part after an exact multiple of the line limit is legal")
 	rng := c.Rand("c19")
 	var jobs []*c19Job
